@@ -33,6 +33,7 @@ import (
 	"fmt"
 	"math"
 	"math/big"
+	"math/rand"
 	"os"
 	"path/filepath"
 	"sort"
@@ -198,6 +199,9 @@ func exec(op string) string {
 	w := strings.Fields(op)
 	if len(w) == 0 {
 		return "bad-op"
+	}
+	if res, ok := execGrowth(w); ok {
+		return res
 	}
 	switch {
 	case w[0] == "cfg" && len(w) == 4:
@@ -627,21 +631,38 @@ func genFT(r *hx.Rng, dist map[string]int) string {
 	var sb strings.Builder
 	sb.WriteString("ft " + strconv.FormatInt(d, 10))
 	n := 1 + r.Intn(6)
-	amt := func() string {
+	var last []*big.Int
+	amt := func(forSub bool) string {
+		if forSub && len(last) > 0 && r.Chance(3, 4) {
+			v := new(big.Int).Set(last[r.Intn(len(last))])
+			switch r.Intn(4) {
+			case 0:
+				v.Rsh(v, 1)
+			case 1:
+				v.Add(v, pow10(int(18-min64(d, 18))))
+			case 2:
+				v.Sub(v, big.NewInt(1))
+			}
+			if v.Sign() < 0 {
+				v.SetInt64(0)
+			}
+			return v.String()
+		}
 		v := genNat(r, dist)
 		if r.Chance(1, 12) {
 			v.Neg(v)
 		}
+		last = append(last, new(big.Int).Abs(v))
 		return v.String()
 	}
 	for i := 0; i < n; i++ {
 		switch r.Intn(5) {
 		case 0:
-			sb.WriteString(" s" + amt())
+			sb.WriteString(" s" + amt(false))
 		case 1:
-			sb.WriteString(" a" + amt())
+			sb.WriteString(" a" + amt(false))
 		case 2:
-			sb.WriteString(" u" + amt())
+			sb.WriteString(" u" + amt(true))
 		default:
 			sb.WriteString(" g")
 		}
@@ -651,6 +672,16 @@ func genFT(r *hx.Rng, dist map[string]int) string {
 	}
 	return sb.String()
 }
+
+func min64(a, b int64) int64 {
+	if a < b {
+		return a
+	}
+	return b
+}
+
+// mathRand: a math/rand source seeded from the run's PRNG (for big.Int.Rand)
+func mathRand(r *hx.Rng) *rand.Rand { return rand.New(rand.NewSource(int64(r.U64() >> 1))) }
 
 // genU64: boundary-biased uint64 (stakes): small, around 2^53 (float64 exactness limit), 2^63, max.
 func genU64(r *hx.Rng, dist map[string]int) uint64 {
@@ -724,8 +755,10 @@ func genSizeStr(r *hx.Rng, dist map[string]int) string {
 
 // genOp produces one op line.
 func genOp(r *hx.Rng, dist map[string]int) string {
-	c := r.Intn(128)
+	c := r.Intn(146)
 	switch {
+	case c >= 128:
+		return genGrowthOp(r, dist)
 	case c >= 124:
 		bal := genNat(r, dist)
 		var amt string
@@ -752,6 +785,14 @@ func genOp(r *hx.Rng, dist map[string]int) string {
 		}
 		return "basen " + genNat(r, dist).String() + " " + strconv.Itoa(2+r.Intn(15))
 	case c >= 114:
+		if r.Chance(2, 3) { // an 18-decimal amount whose whole-coin part fits (or just misses) 64 bits
+			v := new(big.Int).Mul(new(big.Int).SetUint64(genU64(r, dist)), pow10(18))
+			v.Add(v, new(big.Int).Rand(mathRand(r), pow10(18)))
+			if r.Chance(1, 10) {
+				v.Add(v, new(big.Int).Mul(pow2(64), pow10(18)))
+			}
+			return "stakearg " + v.String()
+		}
 		return "stakearg " + genInt(r, dist).String()
 	case c >= 112:
 		return "u64 " + strconv.FormatUint(genU64(r, dist), 10)
@@ -1159,13 +1200,25 @@ func main() {
 		}
 	}
 	cfgR := r.Fork()
+	kindRes := map[string]int{}  // op kind : result class
+	branches := map[string]int{} // which branch of the real code an input steers into (by input shape)
+	tally := func(op, res string) {
+		c := res
+		if i := strings.IndexByte(res, ' '); i >= 0 {
+			c = res[:i]
+		}
+		kindRes[opKind(op)+":"+c]++
+		for _, b := range branchTags(op, res) {
+			branches[b]++
+		}
+	}
 	for i := 0; i < n; i++ {
 		if i%300 == 150 { // switch the fork flags the conversion paths read (Proposal 002 / 005 / 017)
 			op := "cfg " + strconv.Itoa(cfgR.Intn(2)) + " " + strconv.Itoa(cfgR.Intn(2)) + " " + strconv.Itoa(cfgR.Intn(2))
 			out.Do(op, func() string { return exec(op) })
 		}
 		op := genOp(r, dist)
-		out.Do(op, func() string { return execTracked(op) })
+		tally(op, out.Do(op, func() string { return execTracked(op) }))
 	}
 	// process-local history: the corpus once more, in a process that has by now executed every kind of
 	// conversion at every decimal count under several fork configurations; the model is history-free, so any
@@ -1178,6 +1231,6 @@ func main() {
 			out.Do(op, func() string { return execTracked(op) })
 		}
 	}
-	fmt.Printf("STATS {\"ops\":%d,\"corpus_ops\":%d,\"kinds\":%s,\"results\":%s,\"dist\":%s}\n",
-		out.N, nc, jsonMap(out.Kinds), jsonMap(out.Results), jsonMap(dist))
+	fmt.Printf("STATS {\"ops\":%d,\"corpus_ops\":%d,\"kinds\":%s,\"results\":%s,\"dist\":%s,\"kind_result\":%s,\"branches\":%s}\n",
+		out.N, nc, jsonMap(out.Kinds), jsonMap(out.Results), jsonMap(dist), jsonMap(kindRes), jsonMap(branches))
 }
